@@ -149,6 +149,9 @@ RAW = {
     'coroutine-fn': lambda: _acoro, 'asyncgen-fn': lambda: _agen, 'gen-fn': lambda: _gen, 'partial': lambda: __import__('functools').partial(len),
     'array': lambda: __import__('array').array('i', [1, 2]), 'frozenset-nested': lambda: frozenset([frozenset([1]), frozenset(['a'])]),
     'dict-keys-tuple': lambda: {(1, 'a'): [1]}, 'bool-key-dict': lambda: {True: 'x', 2: 'y'},
+    'pattern-str': lambda: U.re.compile('a'), 'pattern-bytes': lambda: U.re.compile(b'a'), 'match-str': lambda: U.re.match('a', 'a'),
+    'match-bytes': lambda: U.re.match(b'a', b'a'), 'NT-good': lambda: U.NT(1, 'a'), 'NT-bad': lambda: U.NT('a', 1), 'DC': lambda: U.DC(1),
+    'UCM': lambda: U.UCM(), 'path': lambda: U.pathlib.PurePosixPath('a'),
 }
 RAW_SRC = {
     'range3': 'range(3)', 'range0': 'range(0)', 'bytearray': "bytearray(b'ab')", 'lambda': '(lambda: 0)', 'builtin-len': 'len',
@@ -159,6 +162,8 @@ RAW_SRC = {
     'namedtuple': "collections.namedtuple('NT', 'a b')(1, 'x')", 'exception': "ValueError('x')",
     'frozenset-nested': "frozenset([frozenset([1]), frozenset(['a'])])", 'dict-keys-tuple': "{(1, 'a'): [1]}", 'bool-key-dict': "{True: 'x', 2: 'y'}",
     'array': "__import__('array').array('i', [1, 2])", 'partial': "__import__('functools').partial(len)",
+    'pattern-str': "re.compile('a')", 'pattern-bytes': "re.compile(b'a')", 'match-str': "re.match('a', 'a')", 'match-bytes': "re.match(b'a', b'a')",
+    'NT-good': "NT(1, 'a')", 'NT-bad': "NT('a', 1)", 'DC': 'DC(1)', 'UCM': 'UCM()', 'path': "pathlib.PurePosixPath('a')",
 }
 
 
@@ -267,6 +272,32 @@ ATOM_WIT = {
     'P': [NW('PImpl')],
     'G': [NW('G')],
     'GL': [('c', 'GL', ()), ('c', 'GL', (V('1'),))],
+    'Hashable': [V('1'), V("'a'"), V('None'), ('c', 'tuple', (V('1'),)), NW('K')],
+    'Sized': [V("'a'"), ('c', 'list', ()), ('c', 'list', (V('1'),)), ('m', 'dict', ())],
+    'Callable_': [('fn', 'f'), ('cls', 'int'), ('raw', 'builtin-len')],
+    'LStr': [V("'a'"), V("''")],
+    'SupportsInt': [V('1'), V('1.5'), V('True')],
+    'AnyStr': [V("'a'"), V("b'x'")],
+    'PatS': [('raw', 'pattern-str')],
+    'MatS': [('raw', 'match-str')],
+    'TD': [('m', 'dict', ((V("'a'"), V('1')), (V("'b'"), V("'a'"))))],
+    'TDo': [('m', 'dict', ()), ('m', 'dict', ((V("'a'"), V('1')),))],
+    'NT': [('raw', 'NT-good')],
+    'DC': [('raw', 'DC')],
+    'GenI': [('c', 'gen', (V('1'),)), ('c', 'gen', ())],
+    'CtxI': [('raw', 'UCM')],
+    'PathS': [('raw', 'path')],
+    'AL': [V('1'), V("'a'"), V('True')],
+    'ALgi': [V('None'), ('c', 'list', ()), ('c', 'list', (V('1'), V('0'))), ('c', 'list', (V('1'),))],
+    'ALr': [V('1'), ('c', 'list', ()), ('c', 'list', (V('1'),)), ('c', 'list', (('c', 'list', (V('1'),)), V('0'))), ('c', 'list', (('c', 'list', ()),))],
+    'Type_': [('cls', 'int'), ('cls', 'K'), ('cls', 'type')],
+    'Tuple_': [('c', 'tuple', ()), ('c', 'tuple', (V('1'), V("'a'")))],
+    'List_': [('c', 'list', ()), ('c', 'list', (V('1'), V("'a'")))],
+    'Dict_': [('m', 'dict', ()), ('m', 'dict', ((V('1'), V("'a'")),))],
+    'TupU': [('c', 'tuple', (V('1'),)), ('c', 'tuple', (V('1'), V("'a'"))), ('c', 'tuple', (V('1'), V("'a'"), V("'b'")))],
+    'TupUU': [('c', 'tuple', (V('1'), V("'a'")))],
+    'InitI': [V('1'), V('True')],
+    'FinI': [V('1'), V('0')],
     'list_': [('c', 'list', ()), ('c', 'list', (V('1'), V("'a'")))],
     'dict_': [('m', 'dict', ()), ('m', 'dict', ((V('1'), V("'a'")),))],
     'tuple_': [('c', 'tuple', ()), ('c', 'tuple', (V('1'), V("'a'")))],
@@ -284,7 +315,10 @@ POOL = [V('1'), V('True'), V("'a'"), V('1.5'), V('None'), V("b'x'"), V('1j'), V(
         ('view', 'values', ('m', 'dict', ((V('1'), V('1')),))), ('view', 'items', ('m', 'dict', ((V('1'), V('1')),))),
         ('c', 'GL', (V('1'),)), ('c', 'GL', (V("'a'"),)), ('c', 'URev', (V('1'),)), ('c', 'UCont', (V('1'),)),
         ('m', 'defaultdict', ((V('1'), V('1')),)), ('m', 'OrderedDict', ((V('1'), V('1')),)),
-        ('m', 'ChainMap', ((V('1'), V('1')),))]
+        ('m', 'ChainMap', ((V('1'), V('1')),)),
+        ('raw', 'pattern-str'), ('raw', 'pattern-bytes'), ('raw', 'match-str'), ('raw', 'NT-good'), ('raw', 'NT-bad'), ('raw', 'DC'), ('raw', 'UCM'),
+        ('raw', 'path'), ('raw', 'builtin-len'), ('c', 'list', (('c', 'list', (V("'a'"),)),)), ('c', 'tuple', (V("'a'"), V('1'))),
+        ('m', 'dict', ((V("'a'"), V('1')), (V("'b'"), V("'a'"))))]
 
 _C1_CARRIERS_TRY = ['list', 'tuple', 'USeq', 'UMSeq', 'GL', 'deque', 'set', 'frozenset', 'USet', 'UMSet', 'UColl',
                     'URev', 'UCont', 'UIter', 'gen', 'iter']
